@@ -162,9 +162,21 @@ func MessageFor(form string, raw []byte) *pb.QuoteV4 {
 	return nil
 }
 
-// RunVerify executes one verification case.
+// RunVerify executes one verification case with a fresh Options value.
 func RunVerify(c *world.Case) Outcome {
 	o, g := Options(c)
+	return runVerify(c, o, g)
+}
+
+// RunVerifyShared executes the case through a caller-owned Options value that earlier verified other
+// cases: the exported settings are overwritten the way a caller re-using the value would do it.
+func RunVerifyShared(c *world.Case, shared *verify.Options) Outcome {
+	o, g := Options(c)
+	shared.GetCollateral, shared.CheckRevocations, shared.Getter, shared.Now, shared.TrustedRoots = o.GetCollateral, o.CheckRevocations, g, o.Now, o.TrustedRoots
+	return runVerify(c, shared, g)
+}
+
+func runVerify(c *world.Case, o *verify.Options, g *world.Getter) Outcome {
 	var err error
 	var msg *pb.QuoteV4
 	if c.Form != "raw" && c.Form != "" {
